@@ -221,6 +221,19 @@ def mirp_factory(which):
     if which[0] == "g1":
         from vrpqubo.examples.mirp_g1 import get_mirp
         return lambda: get_mirp(which[1])
+    if which[0] == "narrow":
+        # every visit window lies strictly between two integers (k + 1/4, k + 3/4): no integer time point fits
+        def make_narrow():
+            from vrpqubo.applications.mirp import MIRP
+            m = MIRP(cargo_size=1, time_horizon=which[1])
+            m.add_nodes("S1", 0.75, 1, 1.5)
+            m.add_nodes("D1", 0.75, -1, 1.5)
+            m.add_travel_arcs(lambda p, q: 0.5, vessel_speed=1, cost_per_unit_distance=2,
+                              supply_port_fees={"S1": 1}, demand_port_fees={"D1": 1})
+            m.add_exit_arcs()
+            m.add_entry_arcs(time_limit=3)
+            return m
+        return make_narrow
     from vrpqubo.examples.mirp_random import get_generator
 
     def make():
@@ -310,7 +323,7 @@ def run(ctx):
         ctx.sample(descs[0])
 
     # 3. MIRP getters in every order
-    mirps = [("g1", 16.0), ("rand", 1, 1, 40, 1)]
+    mirps = [("g1", 16.0), ("rand", 1, 1, 40, 1), ("narrow", 3)]
     if not ctx.quick:
         mirps += [("g1", 20.0), ("g1", 25.0), ("rand", 2, 1, 30, 5), ("rand", 1, 2, 40, 7), ("rand", 2, 2, 30, 11)]
     for which in mirps:
@@ -326,7 +339,14 @@ def run(ctx):
                     snap0 = fp.mirp_snapshot(m)
                     got = {}
                     for name in order:
-                        rp = getter(m, name, strict)
+                        try:
+                            rp = getter(m, name, strict)
+                        except Exception as e:  # noqa: a getter may raise loudly (heuristic); the MIRP must be unchanged anyway
+                            ctx.cov.setdefault("mirp_build_errors", []).append(f"{which}:{name}:{exc_cls(e)}")
+                            if fp.mirp_snapshot(m) != snap0:
+                                ctx.violation("oracle/mirp/data-changed", f"MIRP data changed by get_{name}, which raised {exc_cls(e)} (order {order})",
+                                              {"mirp": which, "order": order, "strict": strict}, True)
+                            continue
                         if name in got and got[name] is not rp:
                             ctx.violation("oracle/mirp/not-cached", f"requesting the {name} formulation twice returned different objects",
                                           {"mirp": which, "order": order}, True)
